@@ -116,6 +116,7 @@ def run_chef_scenario(p, wd):
         cases = [("HRR", "HRR", ["HeatRelease"], {}), ("ENT", "ENT", ["Enthalpy"], {}),
                  ("SRi", "SRi", None, {"species": rng.sample(sp, 2)}), ("SDi", "SDi", None, {"species": rng.sample(sp, 3)}),
                  ("RRi", "RRi", None, {"reactions": sorted(rng.sample(range(84), 3))}),
+                 ("SDi_all", "SDi", None, {"species": rng.choice(["all", ["all"]])}),
                  ("user_s1", recs["rs"], ["cp_mass_user"], {}), ("user_sn", recs["rsn"], ["rho_user", "T_user"], {})]
     keeps = [None, names[1], f"{names[-1]} {names[0]}", "temp" if thermo else names[0], f"no_such {names[1]}"]
     if thermo:
@@ -136,9 +137,11 @@ def run_chef_scenario(p, wd):
         if thermo:
             kw.update(mech=MECH, pressure=1.0)
             if "species" in opt:
-                kw["species"] = list(opt["species"])
+                kw["species"] = opt["species"] if isinstance(opt["species"], str) else list(opt["species"])
+                if opt["species"] in ("all", ["all"]):
+                    opt = dict(opt, species=list(sp))       # every species of the mechanism, in mechanism order
                 o2["species"] = list(opt["species"])
-                pre = {"SRi": "IRm", "SDi": "DI"}[kind]
+                pre = {"SRi": "IRm", "SDi": "DI", "SDi_all": "DI"}[kind]
                 newnames = [f"{pre}({s})" for s in opt["species"]]
             if "reactions" in opt:
                 kw["reactions"] = list(opt["reactions"])
@@ -169,7 +172,7 @@ def run_chef_scenario(p, wd):
                     a_, b_ = arr[..., 0], arr[..., 1]
                     new = np.stack([a_ + b_, a_ - b_, a_ * b_], axis=-1)
                 else:
-                    new = cantera_expected(kind, arr, names, o2)
+                    new = cantera_expected({"SDi_all": "SDi"}.get(kind, kind), arr, names, o2)
                 exp["data"][lv][b] = np.concatenate([arr[..., kidx], new], axis=-1)
             exp["mins"][lv] = np.array([np.min(d, axis=(0, 1, 2)) for d in exp["data"][lv]])
             exp["maxs"][lv] = np.array([np.max(d, axis=(0, 1, 2)) for d in exp["data"][lv]])
